@@ -1296,6 +1296,11 @@ impl World {
             let r = self.rng.below(10);
             if [1usize, 3, 4, 8, 9, 18].contains(&self.prof.prop) && self.rng.chance(1, 6) {
                 // a UI edits the position with the (deprecated) setters
+                if self.rng.chance(1, 4) {
+                    let code = self.rng.below(32) as u8;
+                    self.eop(c, task, EOp::Rights { code })?;
+                    continue;
+                }
                 let sq = self.rng.below(64) as u8;
                 let kind = if self.rng.chance(1, 8) {
                     pos.sq[sq as usize] // the same content again: clear an empty square, or put the man that is already there
